@@ -274,7 +274,49 @@ def run(prog: Program, ctx: Ctx) -> None:  # noqa: PLR0912,PLR0915
                 ctx.ob("R2", key(f, "compile-handled"), ok, "compile() of docstring text is handled for SyntaxError, RecursionError and MemoryError" if ok else
                        f"compile() of docstring text only handles {sorted(got)}: input the parser finds too deeply nested raises "
                        f"{sorted(COMPILE_RAISES - got)} out of the docstring parser", where(f, c))
+                # text that cannot be encoded (a lone surrogate) makes compile() raise UnicodeEncodeError, a ValueError
+                ok_u = bool(got & {"Exception", "BaseException", "ValueError", "UnicodeError", "UnicodeEncodeError"})
+                ctx.ob("R2", key(f, "compile-unencodable"), ok_u, "compile() of docstring text is handled for text that cannot be encoded (UnicodeEncodeError / ValueError)"
+                       if ok_u else f"compile() of docstring text only handles {sorted(got)}: a lone surrogate in an annotation raises UnicodeEncodeError out of the docstring parser",
+                       where(f, c))
     ctx.expect_min("R2", n_cp, 1)
+
+    # ------------------------------------------------------------------ R2h member lookups through the parent
+    from sa.aliasderef import AliasDeref
+    from sa.excflow import ExcFlow
+
+    ef = ExcFlow(prog, cg, None)
+    getitem = prog.lookup_method(prog.cls("_griffe.models.Object"), "__getitem__")
+    ef.compute(getitem)
+    lookup_raises = {"KeyError"} | {e for g in getitem for e in ef.escapes(g)}  # what `parent[name]` can raise: a missing member, an empty name, a broken alias on the way
+    ad = AliasDeref(prog, cg)
+    n_lk = 0
+    for f in fns:
+        for n in walk_no_nested(f.node):
+            if isinstance(n, ast.Subscript) and isinstance(n.ctx, ast.Load) and unparse(n.value) == "docstring.parent":
+                n_lk += 1
+                needed = set(lookup_raises)
+                par = parent(n)
+                if isinstance(par, ast.Attribute) and par.value is n and par.attr in ad.raising:
+                    needed |= {"AliasResolutionError", "CyclicAliasError"}  # the member found may be an imported name
+                got = enclosing_catch(n)
+                missing = set() if got & {"Exception", "BaseException"} else {e for e in needed if e not in got and not (e in ("AliasResolutionError", "CyclicAliasError") and got & {"GriffeError"})}
+                ctx.ob("R2", key(f, f"member-lookup:{norm(n, 50)}"), not missing,
+                       f"`{unparse(par if isinstance(par, ast.Attribute) else n)}` is handled for everything the lookup can raise ({sorted(needed)})" if not missing else
+                       f"`{unparse(par if isinstance(par, ast.Attribute) else n)}` is only protected against {sorted(got)}: {sorted(missing)} "
+                       "(an empty member name, a member that is an unresolvable import) escape the docstring parser", where(f, n))
+    ctx.expect_min("R2", n_lk, 3)
+
+    # ------------------------------------------------------------------ R2i helpers that promise not to raise
+    repo_exceptions = {c.name for c in prog.classes.values() if c.module.name == "_griffe.exceptions"}
+    for q in ("_griffe.expressions.safe_get_expression", "_griffe.docstrings.utils.parse_docstring_annotation", "_griffe.docstrings.utils.docstring_warning"):
+        hf = prog.function(q)
+        ef.compute([hf])
+        esc = {e: r for e, r in ef.escapes(hf).items() if e in repo_exceptions}
+        ctx.ob("R2", key(hf, "no-griffe-exception-escapes"), not esc,
+               "no griffe exception can escape this helper (may-raise summary over the call graph)" if not esc else
+               "; ".join(f"{e} raised at {r.fn}:{r.line} reaches the caller via {' -> '.join(x.split('.')[-1] for x in r.via)}" for e, r in sorted(esc.items()))
+               + ": it escapes every docstring parser that uses the helper", where(hf))
 
     # ------------------------------------------------------------------ R3 dispatch totality
     ctx.rule("R3", "every section kind a title maps to has a reader; every Parser member has a parser function; the reader lookup is dominated by "
